@@ -228,6 +228,17 @@ ANGLES = ("angle", "angle3", "angleL", "angleE", "angleL3")
 LOOSE = ("q-intersect", "q-intersect3", "q-conic-conic", "q-tangent", "bisectors", "mirror3", "angle3")
 
 
+SETVALUED = ("q-intersect", "q-intersect3", "q-conic-conic")
+
+
+def dedupe(items, tol):
+    out = []
+    for x in items:
+        if not any(same(x, y, tol) for y in out):
+            out.append(x)
+    return out
+
+
 def pack(args, scaled):
     import base64
     import pickle
@@ -255,6 +266,10 @@ def one_case(ctx, table, name, names, args, pos, lam, scaled):
         ctx.disagree(f"C03:{name}:arg{pos}:raises:{res[1]}", desc, "same result as for the original representative", res[1:3], replay=rec)
         return
     a, b = canon(base[1]), canon(res[1])
+    if name in SETVALUED and a[0] == "list" and b[0] == "list":
+        # common points are compared as SETS: where the line touches the quadric the library returns the point of multiplicity two
+        # once or as two points 1e-8 apart, depending on the rounding of a discriminant that is exactly 0 — the same set of points
+        a, b = ("list", dedupe(a[1], 1e-6)), ("list", dedupe(b[1], 1e-6))
     if not same(a, b, 1e-6 if name in LOOSE else 1e-8, modpi=name in ANGLES):
         if name in ("angle3", "angleL3") and a[0] == "num" and np.allclose(np.abs(a[1]), np.abs(b[1]), atol=1e-6):
             # only the sign differs: orientation of the SVD basis of the carrier plane in space
